@@ -479,12 +479,14 @@ func Batch(o Opts) int {
 		msg, lh := viol.V.Msg, uint64(0)
 		if mout != nil && mout.Violation != nil {
 			msg, lh = mout.Violation.Msg, mout.LogHash
+			fmt.Printf("qsim: minimised %d -> %d steps (%d candidates)\n", stepsOf(viol.Scenario), stepsOf(min), tried)
 		} else {
-			// could not even reproduce in-process: determinism trouble
-			fmt.Fprintln(os.Stderr, "runner: the failing scenario did not fail again in the parent process: harness determinism bug")
-			return 2
+			// not reproducible from the scenario alone in this process: the run
+			// depended on state the library keeps between runs of one worker; the
+			// fresh-process confirmation below falls back to the worker's history
+			fmt.Printf("qsim: the failing scenario does not fail on its own in the parent process (state kept between runs?); no minimisation\n")
+			min = viol.Scenario
 		}
-		fmt.Printf("qsim: minimised %d -> %d steps (%d candidates)\n", stepsOf(viol.Scenario), stepsOf(min), tried)
 		rf := ReplayFile{Property: o.Prop, Seed: o.Seed, RunIndex: viol.Idx, Tier: o.Tier, Oracle: viol.V.Oracle, Message: msg,
 			Minimised: true, OrigSteps: stepsOf(viol.Scenario), LogHash: lh, Scenario: min}
 		os.MkdirAll(o.Replays, 0o755)
